@@ -1,6 +1,7 @@
 SPECIFICATION RSpec
 CONSTANTS
   T = 8196
+  Window = 8196
   Dev = {"copydone_single_recv"}
   MaxLen = 6
   Small = 40
